@@ -216,6 +216,13 @@ func (r *runner) account(o *obs) {
 		r.samples = append(r.samples, map[string]interface{}{"suite": g, "case": o.Human, "observed": trunc(o.Impl, 300)})
 	}
 	mismatch := !o.NoModel && o.Model != o.Impl
+	if !o.NoModel && strings.HasPrefix(o.Model, "NS") {
+		// outside the model's faithful domain: only the Ok/Err/Panic class is compared
+		r.dist[g+".outside_faithful_domain"]++
+		cls := strings.Fields(o.Model)
+		ic := strings.Fields(o.Impl)
+		mismatch = len(cls) > 1 && len(ic) > 0 && (cls[1] == "2") != (ic[0] == "2" || ic[0] == "PANIC")
+	}
 	if mismatch {
 		st.Mismatch++
 	}
